@@ -1309,6 +1309,32 @@ def run_c10_typed_stream(ctx, nstreams=None):
             ctx.sample({'op': 'ptk', 'ty': tyt, 'stream_hex': hx(s), 'items': k, 'cfg': cfg, 'checked': 'every cut point'})
 
 # ================================================================== typed clause of C12: long typed streams (history-dependent state)
+def judge_typed_stream_errors(ctx, cfg):
+    """a typed stream meeting an item of the WRONG SHAPE (a data error raised without consuming the item: `[` for a scalar target, `{` for a sequence ...), a
+    syntax error or a cut item: the error is yielded ONCE, every later call is None (the iterator of a finite input terminates), as the model says"""
+    L = ctx.letters(cfg)
+    cases = [('n2', b'1 2 [3] 4'), ('n2', b'['), ('n2', b'{'), ('b', b'true {"a":1} false'), ('s', b'"x" [1] "y"'), ('d', b'1.5 {} 2'), ('u', b'null [] null'),
+             ('on0', b'1 [2] 3'), ('an0', b'[1] {"a":1} [2]'), ('msn0', b'{"k":1} [1] {"k":2}'), ('S(61:n0)', b'{"a":1} "s" {"a":2}'), ('t(n0,n0)', b'[1,2] {"a":1} [3,4]'),
+             ('E(41:wn0,43:u)', b'"C" [1] "C"'), ('n0', b'1 300 2'), ('n0', b'1 -1 2'), ('n2', b'1 2 tru'), ('n2', b'1 2 "x'), ('wn2', b'7 [8] 9'), ('c', b'"a" "bc" "d"')]
+    lines = ['ptk %s %s %s %d %s' % (L, src, ty, 8, hx(doc)) for ty, doc in cases for src in ('b', 'r1', 's')]
+    io, mo = ctx.both(cfg, lines, impl_name=IMPL, model_name=MODEL)
+    v = []
+    for ln, a, m in zip(lines, io, mo):
+        if a == 'SKIP':
+            continue
+        items = a.split(' ')
+        k = next((i for i, x in enumerate(items) if not x.startswith('V')), len(items))
+        tail = items[k + 1:] if k < len(items) and not items[k].startswith('N') else items[k:]
+        if len(items) != 8 or not all(x.startswith('N') for x in tail):
+            v.append({'what': 'typed-stream-does-not-end-after-error', 'cfg': cfg, 'line': ln, 'expected': 'values, at most one error, then None for ever', 'actual': a[:300], 'shrinkable': False})
+        elif m not in ('NOMODEL', 'SKIP') and m.split(' ')[:k + 1] != items[:k + 1]:
+            # (compared up to and including the error item: byte_offset() after a terminal error is outside the property's claim, see DESIGN.md C12)
+            v.append({'what': 'typed-stream-history', 'cfg': cfg, 'line': ln, 'expected': 'proved model: ' + m[:300], 'actual': a[:300], 'shrinkable': False})
+        else:
+            ctx.distinct_nontrivial += 1
+    ctx.count('typed-stream-error-histories', len(lines))
+    return v
+
 def run_c12_typed(ctx):
     """StreamDeserializer over TYPED items: long histories (up to 300 items) of every container / variant kind — each item is yielded once, as a value,
     with byte_offset() at its end, then None; nothing carried from item to item (recursion budget, scratch) may leak. Histories equal the model's."""
@@ -1364,6 +1390,7 @@ def run_c12_typed(ctx):
             else:
                 ctx.distinct_nontrivial += 1
         ctx.violations += v
+        ctx.violations += judge_typed_stream_errors(ctx, cfg)
         ctx.sample({'op': 'ptk long histories', 'cfg': cfg, 'families': len(fams), 'lines': len(lines)})
 
 # ================================================================== typed clause of C14: depth limit for every typed entry point
@@ -1429,6 +1456,7 @@ def depth_profiles(ctx):
 def run_c14_typed(ctx):
     """typed containers / enum wrappers nested 126..129 deep: accepted up to 127, RecursionLimitExceeded beyond; skipped content at any depth"""
     for cfg in ctx.cfgs:
+        ctx.violations += judge_typed_stream_errors(ctx, cfg)
         L = ctx.letters(cfg)
         profs = depth_profiles(ctx)
         v = []
